@@ -475,6 +475,12 @@ where
                     break 'outer;
                 }
                 istep::cancel_plan(CONSUMER);
+                // one more delivery before anything else is drained: it must leave a wake-up byte (checked inside `deliver`),
+                // whatever the interrupted scan and the delivery nested in it did to the instance
+                if !deliver(1) {
+                    acc.inconclusive = Some("delivery did not arrive".into());
+                    break 'outer;
+                }
                 let st = istep::state_of(CONSUMER);
                 let armed = st.armed_n.load(Ordering::SeqCst) > 0;
                 let fired = st.fired.load(Ordering::SeqCst) > 0;
@@ -537,8 +543,8 @@ where
                 let d = DELIV[s].load(Ordering::SeqCst) - d_before;
                 let y = YIELDS[s].load(Ordering::SeqCst) - y_before;
                 acc.yields += y;
-                if d != preset + nested {
-                    acc.inconclusive = Some(format!("delivery count {} != sent {} [{}]", d, preset + nested, label));
+                if d != preset + nested + 1 {
+                    acc.inconclusive = Some(format!("delivery count {} != sent {} [{}]", d, preset + nested + 1, label));
                     break 'outer;
                 }
                 if y > d {
